@@ -63,7 +63,7 @@ def cell_points(spec):
 def gen_geometry(rng, spec):
     pts, bbox = cell_points(spec)
     real = [p for p in pts if p is not None]
-    kind = rng.choice(['box', 'box', 'all', 'point', 'line', 'triangle', 'multi', 'multi', 'multi', 'corner', 'border', 'box_centres'])
+    kind = rng.choice(['box', 'box', 'all', 'point', 'line', 'triangle', 'multi', 'multi', 'multi', 'corner', 'border', 'box_centres', 'all_but_one', 'all_but_one'])
     x0, y0, x1, y1 = bbox
 
     def rnd(a, b):
@@ -95,6 +95,13 @@ def gen_geometry(rng, spec):
         p = rng.choice(real)
         r = rnd(0.05, 1.5)
         return {'kind': kind, 'wkt': f'POLYGON (({p[0] - r} {p[1] - r}, {p[0] + r} {p[1] - r}, {p[0]} {p[1] + r}, {p[0] - r} {p[1] - r}))'}
+    if kind == 'all_but_one' and len(real) >= 3:
+        # everything except one cell (often an interior one): a ring-like selection that drops a cell but few edges / nodes
+        skip = rng.randrange(len(real))
+        parts = [u for k_, u in enumerate(real) if k_ != skip]
+        r = 0.01
+        return {'kind': kind, 'wkt': 'MULTIPOLYGON (' + ', '.join(
+            f'(({u[0] - r} {u[1] - r}, {u[0] + r} {u[1] - r}, {u[0] + r} {u[1] + r}, {u[0] - r} {u[1] + r}, {u[0] - r} {u[1] - r}))' for u in parts) + ')'}
     if kind == 'multi':
         # several small disjoint parts: concave / scattered selections (U shapes, rings, cells one apart)
         parts = rng.sample(real, min(len(real), rng.choice([2, 2, 3, 4])))
